@@ -227,7 +227,7 @@ Proof.
   - reflexivity.
 Qed.
 
-(** ---- after 21f0154, before the repair 100c33a: the 416 page of an internal route lists the rule headers of the
+(** ---- after 21f0154, before the repair 31ad067: the 416 page of an internal route lists the rule headers of the
     request's own path (reproduced on the real code at fbca956) ---- *)
 (** host with the internal page /./lang (rule accept-language, lower-casing, default "en") and the public page /hi (rule
     x-pub); a Prime extension answers /hi with /./lang:
